@@ -153,6 +153,7 @@ def run(ctx: Ctx):
             ctx.obligation(False, f"lin_check rejects the traced {which} map of {e.cls} (primitive {prim}); failing input found")
     validate_rule_table(ctx, progs, codes, impls_of)
     presented_as_linear(ctx)
+    derived_closures(ctx)
     ctx.traces = len(progs)
     ctx.notes.append(f"jaxprs certified linear by reflection: {n_acc}/{len(progs)}; "
                      f"programs with unsupported control flow: {unsupported_all}")
@@ -243,8 +244,48 @@ def presented_as_linear(ctx):
                                  "presented-as-linear:" + name, f"{op} with a non-linear operator returns a LinearOperator that")
 
 
+def derived_closures(ctx):
+    """scalar multiples / quotients, sums, differences and compositions of every algebra-specialised class carry their
+    own forward AND adjoint closures: each must be linear (complex-linear on complex spaces), like the adjoint, the
+    transposes and the Gram operator of the result"""
+    n = 3
+    for dt in (np.complex128, np.float64):
+        pool = L.leaf_pool(random.Random(ctx.seed + 11), n, dt)
+        names = sorted(pool)
+        cs = [1.0 + 2.0j, -0.5j] if L.is_complex(dt) else [-0.5]
+        for name in names:
+            forms = [("mul", lambda A, c: A * c), ("rmul", lambda A, c: c * A), ("div", lambda A, c: A / c), ("neg", lambda A, c: -A)]
+            other = pool[ctx.rng.choice(names)]
+            forms += [("add", lambda A, c, o=other: A + o()), ("sub", lambda A, c, o=other: A - o()), ("comp", lambda A, c, o=other: A(o()))]
+            for fname, mk in forms:
+                if ctx.quick and fname in ("neg", "rmul") and ctx.rng.random() < 0.5:
+                    continue
+                c = ctx.rng.choice(cs)
+                key = {"unit": "derived-closures", "class": name, "form": fname, "scalar": str(c), "dtype": np.dtype(dt).name,
+                       "pool_seed": ctx.seed + 11}
+                try:
+                    B = mk(pool[name](), c)
+                    views = [("forward", B, B.input_shape, B.input_dtype), ("adjoint", B.adj, B.output_shape, B.output_dtype),
+                             ("H", B.H, B.output_shape, B.output_dtype)]
+                    if fname in ("div", "mul", "sub"):
+                        G = B.gram_op
+                        views.append(("gram_op", G, G.input_shape, G.input_dtype))
+                        views.append(("T.adj", B.T.adj, B.input_shape, B.input_dtype))
+                except Exception:
+                    continue            # rejected / failing combinations are C05's and C01's findings
+                ctx.count("derived-closures", key)
+                for vname, fn, shp, vdt in views:
+                    if blackbox(ctx, None, fn, shp, vdt, False, key, "derived:" + name, f"{vname} of the {fname} form"):
+                        break
+
+
 def replay(ctx: Ctx, rec):
     key = rec["input"]
+    if key.get("unit") == "derived-closures":
+        c2 = Ctx(ctx.pid, ctx.tier, key["pool_seed"] - 11)
+        c2.known = []
+        derived_closures(c2)
+        return not c2.violations
     cat = L.catalogue(random.Random(key["catalogue_seed"]), key["level"])
     e = cat[key["index"]]
     A = e.build()
